@@ -698,6 +698,16 @@ func formatCorners(c *Ctx) {
 					c.PropFail("valid-archive-refused", fmt.Sprintf("a GNU tar with a volume label (tar -V) scans to %s; the same fileset without the label to %s", got, want), op)
 				}
 			}
+			glob := filepath.Join(base, "glob.tar")
+			if exec.Command("tar", "--format=pax", "--pax-option=comment=hello", "-C", d, "-cf", glob, ".").Run() == nil {
+				paxPlain := filepath.Join(base, "paxplain.tar")
+				exec.Command("tar", "--format=pax", "-C", d, "-cf", paxPlain, ".").Run()
+				got, wantPax := scan("tar", glob), scan("tar", paxPlain)
+				c.H("corner:pax-global-header:" + strings.Fields(got)[0])
+				if strings.HasPrefix(wantPax, "ok ") && got != wantPax {
+					c.PropFail("valid-archive-refused", fmt.Sprintf("a pax archive with a global extended header (GNU tar names it /tmp/GlobalHead.N) scans to %s; the same fileset without one to %s", got, wantPax), op)
+				}
+			}
 			if exec.Command("tar", "--format=gnu", "-g", filepath.Join(base, "snar"), "-C", d, "-cf", incr, ".").Run() == nil {
 				// (reading the directories for the snapshot file touches their atimes only)
 				got := scan("tar", incr)
